@@ -2,75 +2,143 @@
 C10 — memory limit. Theorems about `LolHtml.Model.Memory` (the functions lane `mem` executes:
 `MemSys.init`, `MemSys.run`, `MemSys.final`; `MemSys.step` is what `run` iterates).
 
-Setting of every theorem: `s0` is the machine built by `MemSys.init debug M prealloc itemSize`
+Setting of every theorem: `s0` is the machine built by `MemSys.init M prealloc itemSize`
 (one limiter with limit `M`, one arena preallocated with `prealloc` bytes, one empty `LimitedVec` of
 items of `itemSize` bytes), `ops` is an ARBITRARY list of operations
 (append / init_with / shift on the arena, push / drain on the vec).
-Hypotheses `prealloc ≤ M` and `prealloc ≤ isize::MAX` are forced by the proofs: outside them
-`Arena::new` swallows the failed charge (finding F5, `C10_prealloc_counterexample`).
+Since the repair of finding F5 (/repo 6823fd9: `Arena::new` clamps the preallocation to the limit and
+rolls back a reservation that fails) every theorem holds for EVERY `prealloc`
+(`C10_prealloc_clamped`, `C10_prealloc_unreservable`), including `C10_monotone`.
 -/
 import LolHtml.Lemmas.Memory
 
 namespace LolHtml.Thm.C10
 open LolHtml.Model.Memory
 
-/-- `Arena::new` with a legal preallocation succeeds (debug or release) and charges exactly it. -/
-theorem init_ok (debug : Bool) {M prealloc i : Nat} (hp : prealloc ≤ M) (hp2 : prealloc ≤ isizeMax) :
-    MemSys.init debug M prealloc i =
-      .ok { lim := { usage := prealloc, max := M }, arena := { cap := prealloc, data := [] },
-            vec := LimitedVec.new i } := by
+/-- The machine whose buffer starts with `size` bytes reserved and charged. -/
+def fitted (M size i : Nat) : MemSys :=
+  { lim := { usage := size, max := M }, arena := { cap := size, data := [] },
+    vec := LimitedVec.new i }
+
+/-- The machine whose preallocation was dropped. -/
+def dropped (M i : Nat) : MemSys :=
+  { lim := { usage := 0, max := M }, arena := { cap := 0, data := [] }, vec := LimitedVec.new i }
+
+/-- `MemSys.init` in closed form: the constructor never fails and never panics (for a `usize`
+    preallocation); `min prealloc M` bytes are charged and reserved, unless that exceeds `isize::MAX`
+    (the reservation fails and the charge is rolled back). -/
+theorem init_eq (M prealloc i : Nat) (hu : prealloc ≤ usizeMax) :
+    MemSys.init M prealloc i =
+      .ok (if min prealloc M ≤ isizeMax then fitted M (min prealloc M) i else dropped M i) := by
+  have h1 : ¬ usizeMax < min prealloc M := by omega
+  have h2 : ¬ M < min prealloc M := by omega
+  by_cases hI : isizeMax < min prealloc M
+  · have : ¬ min prealloc M ≤ isizeMax := by omega
+    simp [MemSys.init, Arena.new, Limiter.new, Limiter.increase, Limiter.decrease, h1, h2, hI, this,
+      dropped]
+  · have : min prealloc M ≤ isizeMax := by omega
+    simp [MemSys.init, Arena.new, Limiter.new, Limiter.increase, h1, h2, hI, this, fitted]
+
+/-- A successful construction was given a `usize` (or a limit that is one). -/
+theorem init_usize {M prealloc i : Nat} {s0 : MemSys} (hinit : MemSys.init M prealloc i = .ok s0) :
+    min prealloc M ≤ usizeMax := by
+  by_cases h : usizeMax < min prealloc M
+  · simp [MemSys.init, Arena.new, Limiter.new, Limiter.increase, h] at hinit
+  · omega
+
+theorem init_cases {M prealloc i : Nat} {s0 : MemSys} (hinit : MemSys.init M prealloc i = .ok s0) :
+    (min prealloc M ≤ isizeMax ∧ s0 = fitted M (min prealloc M) i) ∨
+    (isizeMax < min prealloc M ∧ s0 = dropped M i) := by
+  have h0 := init_usize hinit
+  have h1 : ¬ usizeMax < min prealloc M := by omega
+  have h2 : ¬ M < min prealloc M := by omega
+  by_cases hI : isizeMax < min prealloc M
+  · simp [MemSys.init, Arena.new, Limiter.new, Limiter.increase, Limiter.decrease, h1, h2, hI] at hinit
+    cases hinit
+    exact Or.inr ⟨hI, rfl⟩
+  · simp [MemSys.init, Arena.new, Limiter.new, Limiter.increase, h1, h2, hI] at hinit
+    cases hinit
+    exact Or.inl ⟨by omega, rfl⟩
+
+/-- The initial machine satisfies every invariant used below — for EVERY preallocation. -/
+theorem init_good {M prealloc i : Nat} {s0 : MemSys}
+    (hinit : MemSys.init M prealloc i = .ok s0) : Good M i s0 ∧ Clean s0 := by
+  have hs : isizeMax = 9223372036854775807 := rfl
+  rcases init_cases hinit with ⟨h1, rfl⟩ | ⟨_, rfl⟩
+  · refine ⟨⟨⟨?_, ?_, ?_, ?_, ?_⟩, rfl, rfl, ?_, ?_⟩, ⟨⟨?_, ?_, ?_, ?_, ?_⟩, ?_, ?_⟩⟩ <;>
+      simp [fitted, MemSys.allocated, LimitedVec.new, Arena.len] <;> omega
+  · refine ⟨⟨⟨?_, ?_, ?_, ?_, ?_⟩, rfl, rfl, ?_, ?_⟩, ⟨⟨?_, ?_, ?_, ?_, ?_⟩, ?_, ?_⟩⟩ <;>
+      simp [dropped, MemSys.allocated, LimitedVec.new, Arena.len]
+
+/-- **C10_constructor_total.** Construction never fails and never panics, whatever the limit and
+    the preallocation (`HtmlRewriter::new` has no way to report an error). -/
+theorem C10_constructor_total (M prealloc i : Nat) (hu : prealloc ≤ usizeMax) :
+    ∃ s0, MemSys.init M prealloc i = .ok s0 :=
+  ⟨_, init_eq M prealloc i hu⟩
+
+/-- **C10_prealloc_fitted.** A preallocation that fits the limit is charged and reserved exactly. -/
+theorem C10_prealloc_fitted (M prealloc i : Nat) (h1 : prealloc ≤ M) (h2 : prealloc ≤ isizeMax) :
+    MemSys.init M prealloc i = .ok (fitted M prealloc i) := by
   have hs : isizeMax = 9223372036854775807 := rfl
   have hu : usizeMax = 18446744073709551615 := rfl
-  have h1 : ¬ usizeMax < prealloc := by omega
-  have h2 : ¬ M < prealloc := by omega
-  have h3 : ¬ isizeMax < prealloc := by omega
-  simp [MemSys.init, Arena.new, Limiter.new, Limiter.increase, h1, h2, h3]
+  rw [init_eq M prealloc i (by omega), Nat.min_eq_left h1]
+  simp [h2]
 
-/-- The initial machine satisfies every invariant used below. -/
-theorem init_good {debug : Bool} {M prealloc i : Nat} {s0 : MemSys}
-    (hinit : MemSys.init debug M prealloc i = .ok s0) (hp : prealloc ≤ M) (hp2 : prealloc ≤ isizeMax) :
-    Good M i s0 ∧ Clean s0 ∧ s0.lim.usage = prealloc := by
-  rw [init_ok debug hp hp2] at hinit
-  cases hinit
-  have hs : isizeMax = 9223372036854775807 := rfl
-  refine ⟨⟨⟨?_, ?_, ?_, ?_, ?_⟩, rfl, rfl, ?_, ?_⟩, ⟨⟨?_, ?_, ?_, ?_, ?_⟩, ?_, ?_⟩, rfl⟩ <;>
-    simp [MemSys.allocated, LimitedVec.new, Arena.len] <;> omega
+/-- **C10_prealloc_clamped** (the repair of finding F5). A preallocation larger than the limit is
+    clamped to it: construction leaves `usage = arena.cap = M` — never more than the limit, and
+    nothing charged that is not held. -/
+theorem C10_prealloc_clamped (M prealloc i : Nat) (hu : prealloc ≤ usizeMax) (h1 : M < prealloc)
+    (h2 : M ≤ isizeMax) :
+    MemSys.init M prealloc i = .ok (fitted M M i) ∧ (fitted M M i).lim.usage = M ∧
+    (fitted M M i).arena.cap = M ∧ (fitted M M i).allocated = M := by
+  rw [init_eq M prealloc i hu, Nat.min_eq_right (Nat.le_of_lt h1)]
+  simp [h2, fitted, MemSys.allocated, LimitedVec.new]
+
+/-- **C10_prealloc_unreservable.** If the clamped preallocation exceeds `isize::MAX` the reservation
+    fails and the charge is rolled back: `usage = 0`, capacity 0. -/
+theorem C10_prealloc_unreservable (M prealloc i : Nat) (hu : prealloc ≤ usizeMax)
+    (h : isizeMax < min prealloc M) :
+    MemSys.init M prealloc i = .ok (dropped M i) ∧ (dropped M i).lim.usage = 0 ∧
+    (dropped M i).arena.cap = 0 := by
+  rw [init_eq M prealloc i hu]
+  have : ¬ min prealloc M ≤ isizeMax := by omega
+  simp [this, dropped]
 
 /-! ### C10_accounting -/
 
 /-- **C10_accounting.** After any operation list, the accounted usage is exactly the memory held
     (arena capacity + vec capacity × item size) plus the charges of the operations that failed
     (which are never rolled back); lengths never exceed capacities. -/
-theorem C10_accounting {debug : Bool} {M prealloc i : Nat} {s0 : MemSys}
-    (hinit : MemSys.init debug M prealloc i = .ok s0) (hp : prealloc ≤ M) (hp2 : prealloc ≤ isizeMax)
+theorem C10_accounting {M prealloc i : Nat} {s0 : MemSys}
+    (hinit : MemSys.init M prealloc i = .ok s0)
     (ops : List Op) :
     (s0.final ops).lim.usage = (s0.final ops).allocated + failedCharges (s0.run ops) ∧
     (s0.final ops).arena.len ≤ (s0.final ops).arena.cap ∧
     (s0.final ops).vec.len ≤ (s0.final ops).vec.cap ∧
     (s0.final ops).lim.max = M ∧ (s0.final ops).vec.itemSize = i := by
-  obtain ⟨g, c, _⟩ := init_good hinit hp hp2
+  obtain ⟨g, c⟩ := init_good hinit
   have h := MemSys.run_accounting ops s0 0 g.inv (by simpa using c.exact)
   obtain ⟨gi, gm, gs, _, _⟩ := (g.run ops).2
   exact ⟨by omega, gi.alen, gi.vlen, gm, gs⟩
 
 /-- **C10_accounting (capacities never shrink).** From any reachable state on, every later state
     has capacities at least as large. -/
-theorem C10_capacities_monotone {debug : Bool} {M prealloc i : Nat} {s0 : MemSys}
-    (hinit : MemSys.init debug M prealloc i = .ok s0) (hp : prealloc ≤ M) (hp2 : prealloc ≤ isizeMax)
+theorem C10_capacities_monotone {M prealloc i : Nat} {s0 : MemSys}
+    (hinit : MemSys.init M prealloc i = .ok s0)
     (ops₁ ops₂ : List Op) :
     ∀ x ∈ (s0.final ops₁).run ops₂,
       (s0.final ops₁).arena.cap ≤ x.2.arena.cap ∧ (s0.final ops₁).vec.cap ≤ x.2.vec.cap := by
-  obtain ⟨g, _, _⟩ := init_good hinit hp hp2
+  obtain ⟨g, _⟩ := init_good hinit
   exact MemSys.run_caps_mono ops₂ _ (g.run ops₁).2.inv
 
 /-- Every byte of growth of a successful operation is charged, nothing else is charged, and a charge
     that succeeded passed the check `usage ≤ max` (one step, any reachable state). -/
-theorem C10_step_charges {debug : Bool} {M prealloc i : Nat} {s0 : MemSys}
-    (hinit : MemSys.init debug M prealloc i = .ok s0) (hp : prealloc ≤ M) (hp2 : prealloc ≤ isizeMax)
+theorem C10_step_charges {M prealloc i : Nat} {s0 : MemSys}
+    (hinit : MemSys.init M prealloc i = .ok s0)
     (ops : List Op) (op : Op) (s' : MemSys) (h : (s0.final ops).step op = .ok s') :
     s'.lim.usage + (s0.final ops).allocated = (s0.final ops).lim.usage + s'.allocated ∧
     ((s'.lim = (s0.final ops).lim ∧ s'.allocated = (s0.final ops).allocated) ∨ s'.lim.usage ≤ M) := by
-  obtain ⟨g, _, _⟩ := init_good hinit hp hp2
+  obtain ⟨g, _⟩ := init_good hinit
   have gf := (g.run ops).2
   obtain ⟨_, m', _, _, _, ch, ck⟩ := MemSys.step_ok h gf.inv
   refine ⟨ch, ?_⟩
@@ -83,12 +151,12 @@ theorem C10_step_charges {debug : Bool} {M prealloc i : Nat} {s0 : MemSys}
 /-- **C10_bound (memory held, all histories).** In every state of every run — also after failed
     operations — the memory held is within the limit: hence the retained input (`arena.len`) and the
     open-element stack (`vec.cap × itemSize`, a fortiori `vec.len × itemSize`) are within `M`. -/
-theorem C10_bound_held {debug : Bool} {M prealloc i : Nat} {s0 : MemSys}
-    (hinit : MemSys.init debug M prealloc i = .ok s0) (hp : prealloc ≤ M) (hp2 : prealloc ≤ isizeMax)
+theorem C10_bound_held {M prealloc i : Nat} {s0 : MemSys}
+    (hinit : MemSys.init M prealloc i = .ok s0)
     (ops : List Op) :
     ∀ x ∈ s0.run ops,
       x.2.allocated ≤ M ∧ x.2.arena.len ≤ M ∧ x.2.vec.cap * i ≤ M ∧ x.2.vec.len * i ≤ M := by
-  obtain ⟨g, _, _⟩ := init_good hinit hp hp2
+  obtain ⟨g, _⟩ := init_good hinit
   intro x hx
   obtain ⟨gi, _, gs, _, gh⟩ := (g.run ops).1 x hx
   have h1 := gi.alen
@@ -98,12 +166,12 @@ theorem C10_bound_held {debug : Bool} {M prealloc i : Nat} {s0 : MemSys}
 
 /-- **C10_bound (accounted usage).** As long as every operation succeeded, the accounted usage
     equals the memory held and is within the limit. -/
-theorem C10_bound {debug : Bool} {M prealloc i : Nat} {s0 : MemSys}
-    (hinit : MemSys.init debug M prealloc i = .ok s0) (hp : prealloc ≤ M) (hp2 : prealloc ≤ isizeMax)
+theorem C10_bound {M prealloc i : Nat} {s0 : MemSys}
+    (hinit : MemSys.init M prealloc i = .ok s0)
     (ops : List Op) (hok : s0.AllOk ops) :
     (s0.final ops).lim.usage ≤ M ∧ (s0.final ops).lim.usage = (s0.final ops).allocated ∧
     (s0.final ops).arena.len ≤ M ∧ (s0.final ops).vec.cap * i ≤ M := by
-  obtain ⟨g, c, _⟩ := init_good hinit hp hp2
+  obtain ⟨g, c⟩ := init_good hinit
   obtain ⟨⟨ci, ce, cw⟩, cm, cs⟩ := c.allOk ops hok
   have h1 := ci.alen
   rw [g.max] at cm
@@ -117,15 +185,15 @@ theorem C10_bound {debug : Bool} {M prealloc i : Nat} {s0 : MemSys}
     `capacity + additional` and `previous_usage + byte_count` overflow sites.
     Forced hypothesis: `M ≤ isize::MAX` and `8 × itemSize ≤ isize::MAX`, or (for any `M`, e.g. the
     default `usize::MAX`) twice the memory held plus the incoming slice fits in `usize`. -/
-theorem C10_error_not_panic {debug : Bool} {M prealloc i : Nat} {s0 : MemSys}
-    (hinit : MemSys.init debug M prealloc i = .ok s0) (hp : prealloc ≤ M) (hp2 : prealloc ≤ isizeMax)
+theorem C10_error_not_panic {M prealloc i : Nat} {s0 : MemSys}
+    (hinit : MemSys.init M prealloc i = .ok s0)
     (hi : 0 < i) (ops : List Op) (hok : s0.AllOk ops) (op : Op)
     (hop : op.Contract (s0.final ops))
     (hfit : (M ≤ isizeMax ∧ 8 * i ≤ isizeMax) ∨
             2 * (s0.final ops).allocated + op.incoming + 8 * i + 128 ≤ usizeMax) :
     (∃ s', (s0.final ops).step op = .ok s' ∧ s'.lim.usage ≤ M) ∨
     (∃ c s', (s0.final ops).step op = .err c s') := by
-  obtain ⟨g, c, _⟩ := init_good hinit hp hp2
+  obtain ⟨g, c⟩ := init_good hinit
   obtain ⟨cf, cm, cs⟩ := c.allOk ops hok
   rw [g.max] at cm
   rw [g.isz] at cs
@@ -155,78 +223,88 @@ theorem C10_panic_sites (s : MemSys) (op : Op) (p : Panic) (h : s.step op = .pan
 
 /-! ### C10_monotone -/
 
-/-- **C10_monotone.** A run in which every operation succeeds under `M` also succeeds under any
-    `M' ≥ M`, with the same results and the same states apart from the stored limit. -/
-theorem C10_monotone {debug : Bool} {M M' prealloc i : Nat} {s0 : MemSys}
-    (hinit : MemSys.init debug M prealloc i = .ok s0) (hp : prealloc ≤ M) (hp2 : prealloc ≤ isizeMax)
+/-- The two initial machines of the same configuration under limits `M ≤ M'` are in the simulation
+    relation, whatever the preallocation. -/
+theorem init_sim {M M' prealloc i : Nat} {s0 s0' : MemSys}
+    (hinit : MemSys.init M prealloc i = .ok s0) (hinit' : MemSys.init M' prealloc i = .ok s0')
+    (hM : M ≤ M') (hU : M' ≤ usizeMax) : Sim s0 s0' := by
+  have hs : isizeMax = 9223372036854775807 := rfl
+  rcases init_cases hinit with ⟨h1, rfl⟩ | ⟨h1, rfl⟩ <;>
+    rcases init_cases hinit' with ⟨h1', rfl⟩ | ⟨h1', rfl⟩ <;>
+    constructor <;> simp only [fitted, dropped] <;> omega
+
+/-- **C10_monotone.** For every preallocation: a run in which every operation succeeds under `M`
+    also succeeds under any `M' ≥ M`, with the same results, the same buffered bytes and the same
+    stack after every operation. (The accounting may differ — under the larger limit more of the
+    preallocation is reserved — but the final states stay in the simulation relation `Sim`:
+    headroom and affordable buffer length under `M'` are at least those under `M`.) -/
+theorem C10_monotone {M M' prealloc i : Nat} {s0 : MemSys}
+    (hinit : MemSys.init M prealloc i = .ok s0) (hu : prealloc ≤ usizeMax)
+    (hM : M ≤ M') (hU : M' ≤ usizeMax) (ops : List Op) (hok : s0.AllOk ops) :
+    ∃ s0', MemSys.init M' prealloc i = .ok s0' ∧ s0'.AllOk ops ∧
+      (s0'.run ops).map view = (s0.run ops).map view ∧
+      (s0'.final ops).arena.data = (s0.final ops).arena.data ∧
+      (s0'.final ops).vec = (s0.final ops).vec := by
+  obtain ⟨s0', hinit'⟩ := C10_constructor_total M' prealloc i hu
+  obtain ⟨r1, r2, r3⟩ := MemSys.allOk_sim ops (init_sim hinit hinit' hM hU) hok
+  exact ⟨s0', hinit', r1, r3, r2.data, r2.vec⟩
+
+/-- **C10_monotone, identical states.** When the preallocation fits the smaller limit, the two runs
+    go through the same states apart from the stored limit. -/
+theorem C10_monotone_same_states {M M' prealloc i : Nat} {s0 : MemSys}
+    (hinit : MemSys.init M prealloc i = .ok s0) (hp : prealloc ≤ M) (hp2 : prealloc ≤ isizeMax)
     (hM : M ≤ M') (ops : List Op) (hok : s0.AllOk ops) :
-    ∃ s0', MemSys.init debug M' prealloc i = .ok s0' ∧ s0'.AllOk ops ∧
+    ∃ s0', MemSys.init M' prealloc i = .ok s0' ∧ s0'.AllOk ops ∧
       s0'.final ops = (s0.final ops).withMax M' ∧
       s0'.run ops = (s0.run ops).map (fun x => (x.1, x.2.withMax M')) := by
-  rw [init_ok debug hp hp2] at hinit
+  rw [C10_prealloc_fitted M prealloc i hp hp2] at hinit
   cases hinit
-  refine ⟨_, init_ok debug (by omega) hp2, ?_⟩
-  exact MemSys.allOk_mono ops (s := ⟨⟨prealloc, M⟩, ⟨prealloc, []⟩, LimitedVec.new i⟩) hM hok
+  refine ⟨_, C10_prealloc_fitted M' prealloc i (by omega) hp2, ?_⟩
+  exact MemSys.allOk_mono ops (s := fitted M prealloc i) hM hok
 
 /-! ### C10_deterministic -/
 
 /-- **C10_deterministic.** The per-operation results and states are a function of
-    (build mode, limit, preallocation, item size, operation list): `MemSys.init` and `MemSys.run`
+    (limit, preallocation, item size, operation list): `MemSys.init` and `MemSys.run`
     are total functions with no other input (no clock, no address, no allocator answer). Trivial by
     construction of the model; stated for completeness. -/
-theorem C10_deterministic (debug : Bool) (M prealloc i : Nat) (ops : List Op)
-    (s0 s0' : MemSys) (h : MemSys.init debug M prealloc i = .ok s0)
-    (h' : MemSys.init debug M prealloc i = .ok s0') :
+theorem C10_deterministic (M prealloc i : Nat) (ops : List Op)
+    (s0 s0' : MemSys) (h : MemSys.init M prealloc i = .ok s0)
+    (h' : MemSys.init M prealloc i = .ok s0') :
     s0.run ops = s0'.run ops ∧ s0.final ops = s0'.final ops := by
   rw [h] at h'; cases h'; exact ⟨rfl, rfl⟩
 
-/-! ### C10_prealloc_counterexample (finding F5) -/
-
-/-- **F5.** With `prealloc > M` (`max_allowed_memory_usage = 10`, default preallocation 1024) a release
-    build constructs the rewriter with accounted usage 1024 > 10 and the next call succeeds: the bound
-    `usage ≤ M` after a successful call fails. -/
-theorem C10_prealloc_counterexample :
-    ∃ s0 s1, MemSys.init false 10 1024 8 = .ok s0 ∧ s0.step (.append []) = .ok s1 ∧
-      ¬ s1.lim.usage ≤ 10 ∧ s1.lim.usage ≠ s1.allocated :=
-  ⟨⟨⟨1024, 10⟩, ⟨0, []⟩, ⟨0, 0, 8⟩⟩, ⟨⟨1024, 10⟩, ⟨0, []⟩, ⟨0, 0, 8⟩⟩, by decide, by decide, by decide,
-    by decide⟩
-
-/-- **F5, debug build.** The same configuration panics in `Arena::new` (`debug_assert!`). -/
-theorem C10_prealloc_counterexample_debug : MemSys.init true 10 1024 8 = .panic .prealloc := by
-  decide
-
 /-! ### C10 for `TransformStream::write` (retained input) -/
 
-/-- `TransformStream::new` with a legal preallocation. -/
-theorem ts_new_ok (debug : Bool) {M prealloc : Nat} (hp : prealloc ≤ M) (hp2 : prealloc ≤ isizeMax) :
-    TS.new debug M prealloc =
-      .ok { lim := { usage := prealloc, max := M }, buffer := { cap := prealloc, data := [] },
-            hasBufferedData := false } := by
-  have hs : isizeMax = 9223372036854775807 := rfl
-  have hu : usizeMax = 18446744073709551615 := rfl
-  have h1 : ¬ usizeMax < prealloc := by omega
-  have h2 : ¬ M < prealloc := by omega
-  have h3 : ¬ isizeMax < prealloc := by omega
-  simp [TS.new, Arena.new, Limiter.new, Limiter.increase, h1, h2, h3]
+/-- `TransformStream::new`: the initial buffer state satisfies the invariant for every preallocation. -/
+theorem ts_new_inv {M prealloc : Nat} {t0 : TS} (hnew : TS.new M prealloc = .ok t0) :
+    TSInv M t0 ∧ t0.hasBufferedData = false := by
+  have h2 : ¬ M < min prealloc M := by omega
+  by_cases hu : usizeMax < min prealloc M
+  · simp [TS.new, Arena.new, Limiter.new, Limiter.increase, hu] at hnew
+  · by_cases hI : isizeMax < min prealloc M
+    · simp [TS.new, Arena.new, Limiter.new, Limiter.increase, Limiter.decrease, hu, h2, hI] at hnew
+      cases hnew
+      exact ⟨⟨by simp [Arena.len], by simp, by simp, rfl⟩, rfl⟩
+    · simp [TS.new, Arena.new, Limiter.new, Limiter.increase, hu, h2, hI] at hnew
+      cases hnew
+      exact ⟨⟨by simp [Arena.len], by simp, by simp; omega, rfl⟩, rfl⟩
 
-/-- **C10_write_retention.** For every sequence of writes `ws` that all succeed, whatever the parser
-    answers (`consumed`, only assumed `≤` the chunk length): bytes in = bytes handed to the sink +
-    bytes retained, the retained bytes are within the limit `M`, and so is the buffer's capacity.
-    (`ws` is arbitrary, so this holds after each successful write.) -/
-theorem C10_write_retention {debug : Bool} {M prealloc : Nat} {t0 : TS}
-    (hnew : TS.new debug M prealloc = .ok t0) (hp : prealloc ≤ M) (hp2 : prealloc ≤ isizeMax)
+/-- **C10_write_retention.** For every limit and every preallocation, for every sequence of writes
+    `ws` that all succeed, whatever the parser answers (`consumed`, only assumed `≤` the chunk length):
+    bytes in = bytes handed to the sink + bytes retained, the retained bytes are within the limit `M`,
+    and so is the buffer's capacity. (`ws` is arbitrary, so this holds after each successful write.) -/
+theorem C10_write_retention {M prealloc : Nat} {t0 : TS}
+    (hnew : TS.new M prealloc = .ok t0)
     (consumed : Bytes → Nat) (hc : ∀ c, consumed c ≤ c.length)
     (ws : List Bytes) (t' : TS) (out : Nat)
     (hlast : (t0.run consumed ws 0).getLast? = some (.ok, t', out)) :
     t'.retained + out = (ws.map List.length).sum ∧ t'.retained ≤ M ∧ t'.buffer.cap ≤ M ∧
     t'.buffer.cap ≤ t'.lim.usage := by
-  rw [ts_new_ok debug hp hp2] at hnew
-  cases hnew
-  have hi : TSInv M ⟨⟨prealloc, M⟩, ⟨prealloc, []⟩, false⟩ :=
-    ⟨by simp [Arena.len], Nat.le_refl _, hp, rfl⟩
-  obtain ⟨i, c, r⟩ := TS.run_last_ok hc ws _ 0 t' out hi hlast
+  obtain ⟨hi, hb⟩ := ts_new_inv hnew
+  obtain ⟨i, c, r⟩ := TS.run_last_ok hc ws t0 0 t' out hi hlast
   refine ⟨?_, r, i.held, i.charged⟩
-  simpa [TS.retained, TS.pending] using c
+  simpa [TS.retained, TS.pending, hb] using c
 
 /-- One write, any state satisfying the invariant: the pending bytes afterwards are exactly the
     unconsumed tail of (pending ++ data). -/
@@ -243,19 +321,19 @@ theorem C10_write_no_shift_panic (t : TS) (data : Bytes) (consumed : Bytes → N
 
 /-- The instance lane `memts` executes: the tag-scanner oracle is a legal parser answer, so
     `C10_write_retention` applies to `TS.run … scanConsumed`. -/
-theorem C10_write_retention_scan {debug : Bool} {M prealloc : Nat} {t0 : TS}
-    (hnew : TS.new debug M prealloc = .ok t0) (hp : prealloc ≤ M) (hp2 : prealloc ≤ isizeMax)
+theorem C10_write_retention_scan {M prealloc : Nat} {t0 : TS}
+    (hnew : TS.new M prealloc = .ok t0)
     (ws : List Bytes) (t' : TS) (out : Nat)
     (hlast : (t0.run scanConsumed ws 0).getLast? = some (.ok, t', out)) :
     t'.retained + out = (ws.map List.length).sum ∧ t'.retained ≤ M :=
-  let h := C10_write_retention hnew hp hp2 scanConsumed scanConsumed_le ws t' out hlast
+  let h := C10_write_retention hnew scanConsumed scanConsumed_le ws t' out hlast
   ⟨h.1, h.2.1⟩
 
 /-! ### non-vacuity -/
 
 /-- `<aa` is retained across writes (init_with, append + shift 0), released by `>`; limit 6 -/
 example :
-    TS.new true 6 2 = .ok ⟨⟨2, 6⟩, ⟨2, []⟩, false⟩ ∧
+    TS.new 6 2 = .ok ⟨⟨2, 6⟩, ⟨2, []⟩, false⟩ ∧
     (⟨⟨2, 6⟩, ⟨2, []⟩, false⟩ : TS).run scanConsumed [[97, 60, 97, 97], [97, 97], [62, 97]] 0 =
       [(.ok, ⟨⟨3, 6⟩, ⟨3, [60, 97, 97]⟩, true⟩, 1),
        (.ok, ⟨⟨5, 6⟩, ⟨5, [60, 97, 97, 97, 97]⟩, true⟩, 1),
@@ -270,9 +348,28 @@ example :
   decide
 
 
+/-- the default preallocation under a tiny limit (the former F5 witness): clamped to the limit; the
+    10 preallocated bytes are usable, the 11th fails as usual -/
+example :
+    MemSys.init 10 1024 8 = .ok ⟨⟨10, 10⟩, ⟨10, []⟩, ⟨0, 0, 8⟩⟩ ∧
+    (⟨⟨10, 10⟩, ⟨10, []⟩, ⟨0, 0, 8⟩⟩ : MemSys).run [.append [1, 2, 3, 4, 5, 6, 7, 8, 9, 10], .append [11]] =
+      [(.ok, ⟨⟨10, 10⟩, ⟨10, [1, 2, 3, 4, 5, 6, 7, 8, 9, 10]⟩, ⟨0, 0, 8⟩⟩),
+       (.err 1, ⟨⟨11, 10⟩, ⟨10, [1, 2, 3, 4, 5, 6, 7, 8, 9, 10]⟩, ⟨0, 0, 8⟩⟩)] := by
+  decide
+
+/-- `C10_monotone` with different initial capacities (prealloc 20: 12 reserved under M = 12, 20 under
+    M' = 30): the run succeeds under both, the accounting differs, data and stack agree -/
+example :
+    MemSys.init 12 20 1 = .ok ⟨⟨12, 12⟩, ⟨12, []⟩, ⟨0, 0, 1⟩⟩ ∧
+    MemSys.init 30 20 1 = .ok ⟨⟨20, 30⟩, ⟨20, []⟩, ⟨0, 0, 1⟩⟩ ∧
+    (⟨⟨12, 12⟩, ⟨12, []⟩, ⟨0, 0, 1⟩⟩ : MemSys).AllOk [.initWith [1, 2, 3], .shift 1, .append [4]] ∧
+    (⟨⟨20, 30⟩, ⟨20, []⟩, ⟨0, 0, 1⟩⟩ : MemSys).final [.initWith [1, 2, 3], .shift 1, .append [4]] =
+      ⟨⟨20, 30⟩, ⟨20, [2, 3, 4]⟩, ⟨0, 0, 1⟩⟩ := by
+  decide
+
 /-- a run with a failure in the middle: the failed charge (128) stays, later ops still run -/
 example :
-    MemSys.init true 100 10 8 = .ok ⟨⟨10, 100⟩, ⟨10, []⟩, ⟨0, 0, 8⟩⟩ ∧
+    MemSys.init 100 10 8 = .ok ⟨⟨10, 100⟩, ⟨10, []⟩, ⟨0, 0, 8⟩⟩ ∧
     (⟨⟨10, 100⟩, ⟨10, []⟩, ⟨0, 0, 8⟩⟩ : MemSys).run [.initWith [1, 2, 3], .push, .shift 1, .append [4]] =
       [(.ok, ⟨⟨10, 100⟩, ⟨10, [1, 2, 3]⟩, ⟨0, 0, 8⟩⟩),
        (.err 128, ⟨⟨138, 100⟩, ⟨10, [1, 2, 3]⟩, ⟨0, 0, 8⟩⟩),
@@ -283,7 +380,7 @@ example :
 /-- hypotheses of `C10_bound` / `C10_monotone` / `C10_error_not_panic` are satisfiable with growth of
     both buffers (arena 2 → 5 bytes, vec 0 → 16 items of 8 bytes) -/
 example :
-    MemSys.init true 200 2 8 = .ok ⟨⟨2, 200⟩, ⟨2, []⟩, ⟨0, 0, 8⟩⟩ ∧
+    MemSys.init 200 2 8 = .ok ⟨⟨2, 200⟩, ⟨2, []⟩, ⟨0, 0, 8⟩⟩ ∧
     (⟨⟨2, 200⟩, ⟨2, []⟩, ⟨0, 0, 8⟩⟩ : MemSys).AllOk [.initWith [1, 2, 3], .push, .append [4, 5], .shift 4] ∧
     ((⟨⟨2, 200⟩, ⟨2, []⟩, ⟨0, 0, 8⟩⟩ : MemSys).final
         [.initWith [1, 2, 3], .push, .append [4, 5], .shift 4]) =
